@@ -253,7 +253,8 @@ CLAIMED = {
         "magnitude of its column; the all-NaN and the no-finite-entry branches are characterised), rows stay paired "
         "with their responses and are exactly the rows passing the NaN filter in their original order, finite "
         "entries are never altered, zero-rated NaNs are imputed only from zero-rated references; sample weights are "
-        "non-negative, sum to one and give every rating class present the same total. Tied by exact-rational "
+        "non-negative, sum to one and give every rating class present the same total; responses outside 0..10 "
+        "(unrated samples) have weight exactly zero and do not disturb the others (Props/C15Mixed). Tied by exact-rational "
         "correspondence through real training-set directories. Partial: text format (%.2e), file reading and the "
         "export order are runtime (explored by an export/import round trip).",
         "Trusted: Lean kernel, standard axioms, hand model (exact sampled correspondence), numpy mean/nanmax "
